@@ -26,29 +26,40 @@ DVal(ps) == LET idx == DOf(ps) IN [k \in DOMAIN idx |-> ps[idx[k]][2]]
 EvOf(x) == Ev(x.a, DVal(x.D), x.k, [t |-> x.e.t, ch |-> Range(x.e.ch), def |-> x.e.def], x.ok)
 
 ObsProj(o) == [exists |-> o.exists, v |-> o.v, ch |-> Range(o.ch), x |-> o.x, dl |-> o.dl, subdl |-> o.subdl, sp |-> o.sp, sf |-> o.sf,
-               lv |-> o.lv, ar |-> o.ar, sch |-> Range(o.sch), cmd |-> [k \in Keys |-> o.cmd[k]]]
+               lv |-> o.lv, ar |-> o.ar, sch |-> Range(o.sch), o |-> [k \in ObsRenKeys |-> o.o[k]], cmd |-> [k \in Keys |-> o.cmd[k]]]
 \* the get_option() values printed while configuring must be the persisted effective values
 MsgOK(o) == /\ (o.mv = None \/ o.mv = o.v) /\ (o.msp = None \/ o.msp = o.sp) /\ (o.msubdl = None \/ o.msubdl = o.subdl)
             /\ (o.msf = None \/ o.msf = o.sf)
 
+\* an observation matches a projected state (Unknown = not defined by the rule book: anything goes)
+Matches(pr, op) == [pr EXCEPT !.sp = IF @ = Unknown THEN op.sp ELSE @, !.sf = IF @ = Unknown THEN op.sf ELSE @] = op
+
 Cands(S, ev) == UNION {IF Enabled(p[1], p[2], ev) THEN Step(p[1], p[2], ev) ELSE {} : p \in S}
 
 \* which observable fields differ from a candidate (for the signature)
-Fields == <<"exists", "v", "ch", "x", "dl", "subdl", "sp", "sf", "lv", "ar", "sch", "cmd">>
+RenFields == <<"omode", "mode", "oflag", "nflag", "ostr", "nstr", "oarr", "narr", "obool", "nfeat", "marr", "dall", "dsome", "dbg">>
+Fields == <<"exists", "v", "ch", "x", "dl", "subdl", "sp", "sf", "lv", "ar", "sch">> \o RenFields \o <<"cmd">>
+\* the observables that belong to options declared in the top-level option file
+TopFields == {"v", "ch", "x", "lv", "ar", "sp", "sf"} \cup ProjRenKeys
 DiffFields(p, o) == LET pr == Proj(p[2]) op == ObsProj(o) IN
     SelectSeq(Fields, LAMBDA f : CASE f = "exists" -> pr.exists # op.exists [] f = "v" -> pr.v # op.v [] f = "ch" -> pr.ch # op.ch
                                      [] f = "x" -> pr.x # op.x [] f = "dl" -> pr.dl # op.dl [] f = "subdl" -> pr.subdl # op.subdl
-                                     [] f = "sp" -> pr.sp # op.sp [] f = "sf" -> pr.sf # op.sf
-                                     [] f = "lv" -> pr.lv # op.lv [] f = "ar" -> pr.ar # op.ar [] f = "sch" -> pr.sch # op.sch [] f = "cmd" -> pr.cmd # op.cmd)
+                                     [] f = "sp" -> pr.sp \notin {Unknown, op.sp} [] f = "sf" -> pr.sf \notin {Unknown, op.sf}
+                                     [] f = "lv" -> pr.lv # op.lv [] f = "ar" -> pr.ar # op.ar [] f = "sch" -> pr.sch # op.sch [] f = "cmd" -> pr.cmd # op.cmd
+                                     [] OTHER -> pr.o[f] # op.o[f])
 RECURSIVE Join(_)
 Join(s) == IF s = <<>> THEN "" ELSE IF Len(s) = 1 THEN s[1] ELSE s[1] \o "+" \o Join(Tail(s))
-DKeys(ev) == Join(SelectSeq(<<"popt", "xopt", "dl", "subdl", "subpopt", "subflag", "level", "arr">>, LAMBDA k : k \in DOMAIN ev.D))
+DKeys(ev) == Join(SelectSeq(<<"popt", "xopt", "dl", "subdl", "subpopt", "subflag", "level", "arr">> \o RenFields \o <<"bt">>, LAMBDA k : k \in DOMAIN ev.D))
 
 \* ---- circumstances recorded along the history (they qualify the signature of a deviation) ---------------
 \* eq-subdl : a `configure -Dsub:default_library=v` gave the value the subproject inherited anyway
 \* own-sp   : a `configure -Dsub:popt=v` gave the value stored in the (yielding) subproject option itself
 \* unset-flag : `configure -Usub:flag` while sub:flag is true (and the parent's flag is false)
 \* stale-x  : xopt was given on a command line and later removed from the option file
+\* (computed in JudgeFrom over all candidate states:)
+\* replay-order : at --wipe both names of a pair (old name / replacement, buildtype / debug) are recorded with values
+\*            that differ for the replacement - the order of the recorded command lines decides
+\* file-deleted : the option file of the top-level project has been deleted and the stored configuration still has its options
 \* parent-replaced : the choices of the top-level popt changed while the subproject's popt was yielding to it
 \*            (until the next --wipe)
 Taints(T, p, sown, ev) ==
@@ -80,23 +91,31 @@ JudgeFrom(c, S, T, sown, n) ==
              one == CHOOSE p \in S : TRUE
              T1 == Taints(T, one, sown, ev)
              cand == Cands(S, ev)
-             sig == ev.a \o "(" \o (IF ev.a = "ConfigureU" THEN ev.k ELSE IF ev.a = "Edit" THEN ev.e.t ELSE DKeys(ev)) \o ")"
+             \* (a late failure - postconf script - is one circumstance whatever was given with it)
+             sig == ev.a \o "(" \o (IF ev.a = "ConfigureU" THEN ev.k ELSE IF ev.a = "Edit" THEN ev.e.t
+                                     ELSE IF ev.a \in {"SetupFailPost", "ReconfigureFailPost"} THEN "" ELSE DKeys(ev)) \o ")"
+             contested == UNION {Contested(p[2]) : p \in S}
+             filegone == \E p \in S : ~p[1].present /\ p[2].exists /\ p[2].ar # None
              anyc == CHOOSE p \in cand : TRUE
          IN IF cand = {} THEN Verdict(c, "EventNotInModel", sig, n, <<>>, <<>>)
             ELSE IF ev.ok /\ x.rc # 0
             THEN Verdict(c, "ValidStepFailed", IF Relevant(T1, ev, <<>>, TRUE) # {} THEN TaintSig(Relevant(T1, ev, <<>>, TRUE)) ELSE sig, n, <<>>, <<>>)
             ELSE IF ~ev.ok /\ x.rc = 0 THEN Verdict(c, "InvalidStepSucceeded", sig, n, <<>>, <<>>)
             ELSE IF x.obs.skip THEN JudgeFrom(c, cand, T1, sown, n + 1)
-            ELSE LET keep == {p \in cand : Proj(p[2]) = ObsProj(x.obs)} IN
+            ELSE LET keep == {p \in cand : Matches(Proj(p[2]), ObsProj(x.obs))} IN
                  IF keep = {}
                  THEN LET fields == DiffFields(anyc, x.obs)
                           now == (T1 \ T) \cap {"eq-subdl", "own-sp", "unset-flag"}
                           \* nothing but the recorded command line was written
-                          nothing == \E p \in S : [Proj(p[2]) EXCEPT !.cmd = EmptyCmd] = [ObsProj(x.obs) EXCEPT !.cmd = EmptyCmd]
+                          nothing == \E p \in S : Matches([Proj(p[2]) EXCEPT !.cmd = EmptyCmd], [ObsProj(x.obs) EXCEPT !.cmd = EmptyCmd])
                           rel == Relevant(T1, ev, fields, FALSE)
                       IN
                       Verdict(c, IF ev.ok THEN "StateAfterStep" ELSE "FailedStepChangedState",
-                              IF now # {} /\ nothing THEN sig \o ":nothing-persisted" \o TaintSig(now)
+                              IF ev.a = "Wipe" /\ Range(fields) \subseteq contested THEN "[replay-order]"
+                              ELSE IF ev.a = "Reconfigure" /\ filegone /\ Range(fields) \subseteq TopFields THEN "[file-deleted]"
+                              ELSE IF ev.a \in {"SetupFailPost", "ReconfigureFailPost"}
+                              THEN sig \o ":" \o Join((IF "cmd" \in Range(fields) THEN <<"cmd">> ELSE <<>>) \o (IF Range(fields) \ {"cmd"} # {} THEN <<"values">> ELSE <<>>))
+                              ELSE IF now # {} /\ nothing THEN sig \o ":nothing-persisted" \o TaintSig(now)
                               ELSE IF rel # {} THEN Join(fields) \o TaintSig(rel)
                               ELSE sig \o ":" \o Join(fields), n,
                               SetSeq({Proj(p[2]) : p \in cand}), <<x.obs>>)
